@@ -3,15 +3,9 @@
   Theorems hold for every number type `α` (no arithmetic is involved except the mid price).
 -/
 import TradingVerif.Model.Exchange
+import TradingVerif.Lemmas.Upd
 namespace TV
 variable {α : Type}
-
-@[simp] theorem upd_same {β : Type} (f : Key → β) (k : Key) (v : β) : upd f k v k = v := by
-  simp [upd]
-
-@[simp] theorem upd_other {β : Type} (f : Key → β) (k k' : Key) (v : β) (h : k' ≠ k) :
-    upd f k v k' = f k' := by
-  simp [upd, h]
 
 /-- An event for another key leaves this key's book untouched. -/
 theorem book_frame (ex : Exchange α) (e : MEvent α) (k : Key) (h : e.key ≠ k) :
